@@ -19,19 +19,19 @@ scalar()/vector(), unary operators, @-pinned parts), every storage, window and l
 operator built for it emits at every step sample IDs that index its series list and are pairwise
 distinct, and a scalar-typed operator has exactly one series. Every sub-expression is itself such
 an expression, so this is a statement about every operator instance in the plan. -/
-theorem every_operator_honours_id_contract (c : Ctx V) (b : Bool) (e : Expr V) (h : WT b e) (o : OpSem V)
+theorem every_operator_honours_id_contract {P : Matching → Prop} (c : Ctx V) (b : Bool) (e : Expr V) (h : WT P b e) (o : OpSem V)
     (ho : engOp c e = .ok o) :
     (∀ t xs, o.step t = .ok xs → (∀ x ∈ xs, x.1 < o.series.length) ∧ (xs.map (·.1)).Pairwise (· ≠ ·)) ∧
-      (b = true → o.series.length = 1) := plan_contract c b e h o ho
+      (b = true → o.series.length = 1) := ⟨(plan_contract c b e h o ho).1, (plan_contract c b e h o ho).2.1⟩
 
 /-- the premises are satisfiable by a plan that goes through the join, a grouped aggregation, a
 k-aggregation with a per-step parameter and a pinned selector -/
-example : WT (V := Int) false
+example : WT (V := Int) (fun _ => True) false
     (.bin "/" false ⟨.manyToOne, true, ["a"], ["b"]⟩
       (.agg "sum" false ["a"] (.call "rate" [.msel ⟨[], 0, none, none⟩ 300000]))
       (.aggP "topk" true ["c"] (.call "scalar" [.vsel ⟨[], 0, none, none⟩])
         (.stepInv (.vsel ⟨[], 60000, some 1000, none⟩)))) :=
-  WT.bin "/" false _ false false _ _
+  WT.bin "/" false _ false false _ _ (fun _ _ => trivial)
     (WT.agg "sum" false ["a"] _ (WT.rangefn "rate" _ _ (by decide)))
     (WT.aggP "topk" true ["c"] _ _ (WT.scalar _ (WT.vsel _))
       (WT.stepInv false _ (by intro v h; cases h) (WT.vsel _)))
